@@ -430,18 +430,22 @@ package fzf
 //@ property C06
 //@ track own uint8
 //@ requires r != nil
-//@ effect call r.pusher requires true sets own(arg0)
+// ... and a record handed over never contains the record delimiter (records are cut at every delimiter)
+//@ effect call r.pusher requires forall(k, 0, len(arg0), arg0[k] != delim) sets own(arg0)
 //@ loop 1
 //@   invariant fresh(slab) && len(slab) >= 1 && len(slab) <= 131072 && unowned(slab, 0, cap(slab))
 //@   invariant unowned(leftover, len(leftover), cap(leftover)) && fresh(leftover) && !sameArray(leftover, slab)
+//@   invariant forall(k, 0, len(leftover), leftover[k] != delim)
 //@ loop 2
 //@   invariant 0 <= i && 0 <= n && n <= len(scope) && sameArray(scope, slab) && scope.off == slab.off && len(scope) <= len(slab)
 //@   invariant fresh(slab) && len(slab) >= 1 && len(slab) <= 131072 && unowned(slab, 0, cap(slab))
 //@   invariant unowned(leftover, len(leftover), cap(leftover)) && fresh(leftover) && !sameArray(leftover, slab)
+//@   invariant forall(k, 0, len(leftover), leftover[k] != delim)
 //@ loop 3
 //@   invariant fresh(slab) && unowned(slab, 0, cap(slab)) && len(slab) <= 131072
 //@   invariant sameArray(buf, slab) && buf.off + len(buf) == slab.off
 //@   invariant unowned(leftover, len(leftover), cap(leftover)) && fresh(leftover) && !sameArray(leftover, slab)
+//@   invariant forall(k, 0, len(leftover), leftover[k] != delim)
 
 // ---------------------------------------------------------------- chunk list
 //@ func Chunk.IsFull
